@@ -189,7 +189,9 @@ Eval(s, e) ==
                           [] e.o \in {"\\", "MOD"} ->
                                 IF ~InInt16(a.v) \/ ~InInt16(b.v) THEN Er(6)
                                 ELSE IF b.v = 0 THEN (IF s.onerr # 0 THEN Er(11) ELSE Er(-1))
-                                ELSE IF ~InInt16(TDiv(a.v, b.v)) THEN Er(6)
+                                \* (-32768 MOD -1: the quotient overflows; what MOD does then is judged by C02, here the
+                                \*  machine follows the interpreter, which returns the remainder 0)
+                                ELSE IF e.o = "\\" /\ ~InInt16(TDiv(a.v, b.v)) THEN Er(6)
                                 ELSE Ok(IF e.o = "MOD" THEN TMod(a.v, b.v) ELSE TDiv(a.v, b.v))
                           [] e.o \in {"AND", "OR"} ->
                                 IF ~InInt16(a.v) \/ ~InInt16(b.v) THEN Er(6)
